@@ -3,7 +3,11 @@
 Case (JSON):
   {"ifaces":  [[base iface ids] ...]      interface k+1 (interface 0 is zope.interface.Interface)
    "classes": [[base class ids] ...]      class k+1 (class 0 is ``object``); never empty lists
-   "objects": [[class id, [direct iface ids], falsy?] ...]   (falsy instances need "falsy": "len" | "bool":
+   "builtins": {"<class id>": "bytearray" | "dict" | "list" | "BaseException" | "Exception" | "ValueError" | "type"}
+                                          these classes are the builtin types themselves (declarations made on
+                                          them are undone at the end of the case); an instance of a class deriving
+                                          from ``type`` is a class object
+   "objects": [[class id, [direct iface ids], falsy?, own __implemented__ iface ids or null, class object?] ...]   (falsy instances need "falsy": "len" | "bool":
                                           every class then defines __len__ / __bool__ reading a per-instance flag)
    "ops": [...]}
 ops:
@@ -31,7 +35,11 @@ Observation: {"mros": [[class ids] per class], "ans": [[ints] per op], "ip": [[i
 import _boot
 from zope.interface import Interface, implementedBy, providedBy, directlyProvides
 from zope.interface import classImplements, classImplementsOnly, classImplementsFirst
-from zope.interface.declarations import _empty
+from zope.interface import implementer
+from zope.interface.declarations import _empty, BuiltinImplementationSpecifications
+
+BUILTINS = {"bytearray": bytearray, "dict": dict, "list": list, "BaseException": BaseException,
+            "Exception": Exception, "ValueError": ValueError, "type": type}
 from zope.interface.interface import InterfaceClass
 from zope.interface.adapter import AdapterRegistry
 
@@ -60,14 +68,34 @@ class World:
             ns["__len__"] = lambda self: 0 if self.__dict__.get("_falsy") else 1
         elif case.get("falsy") == "bool":
             ns["__bool__"] = lambda self: not self.__dict__.get("_falsy")
+        builtins = case.get("builtins", {})
         for k, bs in enumerate(case["classes"]):
-            self.classes.append(type("C%d" % (k + 1), tuple(self.classes[b] for b in bs), dict(ns)))
+            if str(k + 1) in builtins:
+                b = BUILTINS[builtins[str(k + 1)]]
+                assert [self.classes.index(x) for x in b.__bases__] == bs, (b, bs)
+                if b is not type:
+                    BuiltinImplementationSpecifications.pop(b, None)      # nothing may leak in from before
+                self.classes.append(b)
+            else:
+                self.classes.append(type("C%d" % (k + 1), tuple(self.classes[b] for b in bs), dict(ns)))
         self.objects = []
-        for o in case["objects"]:
+        for j, o in enumerate(case["objects"]):
             c, direct = o[0], o[1]
-            ob = self.classes[c]()
+            cls = self.classes[c]
+            if issubclass(cls, type):        # an instance of a metaclass is a class object
+                ob = cls("K%d" % j, (object,), {"__module__": "verif.c19"})
+            else:
+                ob = cls()
             if len(o) > 2 and o[2]:
                 ob._falsy = True
+            if len(o) > 3 and o[3]:
+                # the object carries its own __implemented__ (what a factory instance produces /
+                # what a class object's instances implement): never what super(C, ob) reports
+                own = [self.ifaces[i] for i in o[3]]
+                if isinstance(ob, type):
+                    classImplements(ob, *own)
+                else:
+                    implementer(*own)(ob)
             if direct:
                 directlyProvides(ob, *[self.ifaces[i] for i in direct])
             self.objects.append(ob)
@@ -170,6 +198,18 @@ def run_op(w, op):
 
 
 def run_case(case):
+    before = set(BuiltinImplementationSpecifications)
+    try:
+        return run_case1(case)
+    finally:
+        # declarations on builtin types are process-global: forget every specification of a builtin
+        # created during this case
+        for b in list(BuiltinImplementationSpecifications):
+            if b not in before:
+                del BuiltinImplementationSpecifications[b]
+
+
+def run_case1(case):
     w = World(case)
     mros = [[w.classes.index(c) for c in cl.__mro__] for cl in w.classes]
     ans, ips = [], []
